@@ -78,23 +78,21 @@ def r2_placeholders(R) -> None:
     ft, fu = _fields(fd.get('MODEL_TEMPLATE_TYPED')), _fields(fd.get('MODEL_TEMPLATE_UNTYPED'))
     R.check(sorted(ft) == sorted(fu) == sorted(FIELDS), f'{P}.MODEL_TEMPLATE_*', f'fields:{sorted(ft)}|{sorted(fu)}',
             'both templates use each field exactly once', f'template fields differ: typed {sorted(ft)}, untyped {sorted(fu)}')
-    f = R.repo.func(f'{P}.build_model_definition')
-    calls = [x for x in ast.walk(f.node) if method_call(x, 'format') and text(x.func.value) == 'model_template']
-    if R.require(f.qualname, len(calls), 'model_template.format(...)', fi=f, pred=lambda x: method_call(x, 'format')):
-        kws = sorted(k.arg for k in calls[0].keywords if k.arg)
-        R.check(kws == sorted(FIELDS) and not calls[0].args, f.qualname, f'format-fields:{kws}', 'format() supplies exactly the template fields',
-                f'format() supplies {kws}, templates need {sorted(FIELDS)}', where=f.where)
-    # template selection
+    from fsa.gated import SymExec, canon
+    from rules.c03 import _stmt_of, _template_call
     fn = Fn(R, f'{P}.build_model_definition')
-    sel = {}
-    for n in fn.assigns_to('model_template'):
-        t = None
-        for (a, truth, _t) in fn.guard_atoms(n.id):
-            if text(a) == 'with_type_hints':
-                t = truth
-        sel[t] = text(n.ast.value)
-    R.check(sel.get(True) == 'MODEL_TEMPLATE_TYPED' and sel.get(False) == 'MODEL_TEMPLATE_UNTYPED', fn.q, f'template-selection:{sel}',
-            'with_type_hints selects the typed template, otherwise the untyped one', f'template selection is {sel}', where=fn.fi.where)
+    call = _template_call(fn.fi, FIELDS)
+    kws = sorted(k.arg for k in call.keywords if k.arg)
+    R.check(kws == sorted(FIELDS) and not call.args and all(k.arg for k in call.keywords), fn.q, f'format-fields:{kws}', 'format() supplies exactly the template fields',
+            f'format() supplies {kws}, templates need {sorted(FIELDS)}', where=fn.fi.where)
+    # template selection (gated value of the receiver of .format)
+    se = SymExec(fn.fi.node)
+    recv = canon(se.value(_stmt_of(fn.fi.node, se, call), call.func.value))
+    ok = isinstance(recv, ast.IfExp) and text(recv.test) == 'with_type_hints' and text(recv.body) == 'MODEL_TEMPLATE_TYPED' and text(recv.orelse) == 'MODEL_TEMPLATE_UNTYPED'
+    if not ok and not any(isinstance(x, ast.Name) and x.id in ('MODEL_TEMPLATE_TYPED', 'MODEL_TEMPLATE_UNTYPED') for x in ast.walk(recv)):
+        raise Unsupported(f'{fn.q}: the template formatted is `{text(recv)[:70]}`')
+    R.check(ok, fn.q, f'template-selection:{text(recv)[:80]}',
+            'with_type_hints selects the typed template, otherwise the untyped one', f'template selection is `{text(recv)[:100]}`', where=fn.fi.where)
 
 
 def r3_build_model(R) -> None:
@@ -168,53 +166,78 @@ def r3_build_model(R) -> None:
 
 
 def r4_converter(R) -> None:
+    from fsa.gated import SymExec, canon
+    from fsa.match import nnf_atoms
+    from rules.c03 import _stmt_of, _template_call
     q = f'{P}.build_model_definition'
     f = Fn(R, q)
-    for n in f.assigns_to('expressions'):
-        v = n.ast.value
-        if isinstance(v, (ast.DictComp, ast.SetComp, ast.Dict, ast.Set)) or is_call(v, 'dict', 'set', 'dict.fromkeys', 'frozenset'):
-            R.violation(q, 'expressions-deduplicated:' + text(v)[:50], f'`expressions = {text(v)[:60]}` collapses equal symbols: a statement that appears twice (e.g. a repeated '
-                        f'verbatim line) is inserted once', where=f.where(n))
-    ds = [n for n in f.assigns_to('expressions') if isinstance(n.ast.value, ast.ListComp)]
-    if not R.require(q, len(ds), 'expressions = [converter(s) for s in symbols if ...]', fi=f.fi, pred=lambda x: isinstance(x, ast.ListComp)):
+    sym_param = (f.fi.params() + ['symbols'])[0]
+    call = _template_call(f.fi, FIELDS)
+    se = SymExec(f.fi.node, inline_helpers=False)
+    eqv = canon(se.value(_stmt_of(f.fi.node, se, call), [k.value for k in call.keywords if k.arg == 'equations'][0]))
+    where = f'{f.fi.module.relpath}:{call.lineno}'
+    # an empty block becomes `pass`
+    joined = eqv
+    if isinstance(eqv, ast.IfExp) and text(eqv.test) == text(eqv.body) and is_const(eqv.orelse, '        pass'):
+        joined = eqv.body
+        R.ok(q, 'an empty equation block becomes `pass`')
+    elif isinstance(eqv, ast.IfExp) and isinstance(eqv.test, ast.Compare) and text(eqv.test.left) == text(eqv.orelse) and is_const(eqv.test.comparators[0], '') \
+            and isinstance(eqv.test.ops[0], ast.Eq) and is_const(eqv.body, '        pass'):
+        joined = eqv.orelse
+        R.ok(q, 'an empty equation block becomes `pass`')
+    else:
+        R.violation(q, 'empty-pass', f'no `pass` body for an empty equation block (the equations field is `{text(eqv)[:70]}`)', where=where)
+    # the block is the converter outputs, indented by 8 and joined by blank lines
+    if not (method_call(joined, 'join') and len(joined.args) == 1):
+        raise Unsupported(f'{q}: the equations field `{text(joined)[:70]}` is not a join')
+    ge = joined.args[0]
+    ok = is_const(joined.func.value, '\n\n') and isinstance(ge, (ast.GeneratorExp, ast.ListComp)) and len(ge.generators) == 1 and not ge.generators[0].ifs \
+        and is_call(ge.elt, 'textwrap.indent') and len(ge.elt.args) == 2 and text(ge.elt.args[0]) == text(ge.generators[0].target) and is_const(ge.elt.args[1], ' ' * 8)
+    R.check(ok, q, 'indent-join:' + text(joined.func)[:20], 'converter output is inserted verbatim (indented by 8, joined by blank lines)',
+            f'`{text(joined)[:90]}` alters the converter output beyond indentation', where=where)
+    if not isinstance(ge, (ast.GeneratorExp, ast.ListComp)):
+        raise Unsupported(f'{q}: joined `{text(ge)[:60]}`')
+    lc = ge.generators[0].iter
+    if method_call(lc, 'values', 'keys', 'items') and not lc.args and (isinstance(lc.func.value, (ast.DictComp, ast.Dict)) or is_call(lc.func.value, 'dict', 'dict.fromkeys')):
+        lc = lc.func.value
+    if isinstance(lc, (ast.DictComp, ast.SetComp, ast.Dict, ast.Set)) or is_call(lc, 'dict', 'set', 'dict.fromkeys', 'frozenset') \
+            or (is_call(lc, 'list', 'tuple', 'sorted') and lc.args and (isinstance(lc.args[0], (ast.DictComp, ast.SetComp)) or is_call(lc.args[0], 'dict', 'set', 'dict.fromkeys', 'frozenset'))):
+        R.violation(q, 'expressions-deduplicated:' + text(lc)[:50], f'`{text(lc)[:70]}` collapses equal symbols: a statement that appears twice (e.g. a repeated '
+                    f'verbatim line) is inserted once', where=where)
         return
-    lc = ds[0].ast.value
+    if not (isinstance(lc, (ast.ListComp, ast.GeneratorExp)) and len(lc.generators) == 1):
+        raise Unsupported(f'{q}: the converted expressions are `{text(lc)[:70]}`')
     g = lc.generators[0]
     v = text(g.target)
-    R.check(text(lc.elt) == f'converter({v})' and text(g.iter) == 'symbols' and len(lc.generators) == 1, q, 'converter-once:' + text(lc.elt),
-            'the converter is applied once per selected symbol, in symbol order', f'`{text(lc.elt)} for {v} in {text(g.iter)}`', where=f.where(ds[0]))
+    elt = lc.elt
+    okc = isinstance(elt, ast.Call) and len(elt.args) == 1 and not elt.keywords and text(elt.args[0]) == v and text(g.iter) == sym_param
+    R.check(okc, q, 'converter-once:' + text(elt)[:60], 'the converter is applied once per selected symbol, in symbol order', f'`{text(elt)[:60]} for {v} in {text(g.iter)[:30]}`', where=where)
+    if okc:
+        fn_ = elt.func
+        okd = isinstance(fn_, ast.IfExp) and text(fn_.test) == 'converter is None' and text(fn_.orelse) == 'converter' and isinstance(fn_.body, ast.Name)
+        R.check(okd, q, 'default-converter', 'the default converter is used exactly when none is given',
+                f'the function applied is `{text(fn_)[:80]}`, expected `<default> if converter is None else converter`', where=where)
+        if okd:
+            dcs = [x for x in ast.walk(f.fi.node) if isinstance(x, ast.FunctionDef) and x.name == fn_.body.id and x is not f.fi.node]
+            if len(dcs) == 1:
+                src = text(dcs[0])
+                R.check('.code' in src and '.equation.splitlines()' in src and "'# '" in src, q + '.<locals>.' + dcs[0].name, 'default-converter-shape',
+                        'default converter = commented equation + code', 'the default converter does not emit `# equation` lines followed by the code',
+                        where=f'{f.fi.module.relpath}:{dcs[0].lineno}')
+            else:
+                raise Unsupported(f'{q}: default converter `{fn_.body.id}` is not a local function')
     conds = set()
     for c in g.ifs:
-        for a in (c.values if isinstance(c, ast.BoolOp) and isinstance(c.op, ast.And) else [c]):
-            conds.add(text(a))
-    want = {f'{v}.type in (Type.ENDOGENOUS, Type.VERBATIM)', f'{v}.equation is not None', f'{v}.code is not None'}
-    alt = {f'{v}.type in (Type.VERBATIM, Type.ENDOGENOUS)', f'{v}.equation is not None', f'{v}.code is not None'}
-    R.check(conds in (want, alt), q, 'converter-selection:' + ';'.join(sorted(conds))[:120],
+        for (a_, tr) in nnf_atoms(c, True):
+            conds.add((text(a_), tr))
+    want = {(f'{v}.equation is None', False), (f'{v}.code is None', False)}
+    sel = [(a_, tr) for (a_, tr) in conds if a_.startswith(f'{v}.type ')]
+    rest = conds - set(sel)
+    sel_ok = len(sel) == 1 and sel[0][1] is True and sel[0][0] in (f'{v}.type in (Type.ENDOGENOUS, Type.VERBATIM)', f'{v}.type in (Type.VERBATIM, Type.ENDOGENOUS)',
+                                                                    f'{v}.type in [Type.ENDOGENOUS, Type.VERBATIM]', f'{v}.type in {{Type.ENDOGENOUS, Type.VERBATIM}}')
+    R.check(sel_ok and rest == want, q, 'converter-selection:' + ';'.join(sorted(f'{a_}={tr}' for a_, tr in conds))[:120],
             'selected: endogenous or verbatim symbols that carry an equation and code',
-            f'converter selection is {sorted(conds)}, expected {sorted(want)}', where=f.where(ds[0]))
-    # default converter iff None
-    dd = [n for n in f.assigns_to('converter')]
-    ok = len(dd) == 1 and text(dd[0].ast.value) == 'default_converter' and any(truth and text(a) == 'converter is None' for (a, truth, _t) in f.guard_atoms(dd[0].id))
-    R.check(ok, q, 'default-converter', 'the default converter is used exactly when none is given', 'converter default is not `if converter is None: converter = default_converter`',
-            where=f.fi.where)
-    # result passes only through indent + join
-    eq = [n for n in f.assigns_to('equations')]
-    joined = [n for n in eq if method_call(n.ast.value, 'join')]
-    if R.require(q, len(joined), "equations = '\\n\\n'.join(textwrap.indent(e, ...) for e in expressions)", fi=f.fi, pred=lambda x: method_call(x, 'join')):
-        j = joined[0].ast.value
-        ge = j.args[0]
-        ok = isinstance(ge, (ast.GeneratorExp, ast.ListComp)) and text(ge.generators[0].iter) == 'expressions' and not ge.generators[0].ifs \
-            and is_call(ge.elt, 'textwrap.indent') and text(ge.elt.args[0]) == text(ge.generators[0].target) and is_const(ge.elt.args[1], ' ' * 8)
-        R.check(ok, q, 'indent-join:' + text(j)[:80], "converter output is inserted verbatim (indented by 8, joined by blank lines)",
-                f'`{text(j)[:90]}` alters the converter output beyond indentation', where=f.where(joined[0]))
-    pas = [n for n in eq if is_const(n.ast.value, '        pass')]
-    ok = len(pas) == 1 and any(truth and text(a) in ('len(equations) == 0', 'not equations', "equations == ''") for (a, truth, _t) in f.guard_atoms(pas[0].id))
-    R.check(ok, q, 'empty-pass', 'an empty equation block becomes `pass`', 'no `pass` body for an empty equation block', where=f.fi.where)
-    # default converter: comment lines + code
-    dc = R.repo.func(q + '.<locals>.default_converter')
-    src = text(dc.node)
-    R.check('symbol.code' in src and 'symbol.equation.splitlines()' in src and "'# '" in src, dc.qualname, 'default-converter-shape',
-            'default converter = commented equation + code', 'default_converter does not emit `# equation` lines followed by the code', where=dc.where)
+            f'converter selection is {sorted(conds)}, expected type in (ENDOGENOUS, VERBATIM) with equation and code not None', where=where)
 
 
 def r6_trivial_models_solve(R) -> None:
